@@ -192,7 +192,7 @@ pub struct C10 {
 }
 
 fn v(clause: &str, detail: String) -> Vec<StepViolation> {
-    vec![StepViolation { clause: clause.to_string(), detail, shape: None }]
+    vec![StepViolation { clause: clause.to_string(), detail, shape: None, soft: false }]
 }
 
 /// canonical shape of a crash: command word + failing source location (the call site)
@@ -200,7 +200,7 @@ fn vs(clause: &str, line: &str, site: &str, detail: String) -> Vec<StepViolation
     let word = line.trim().split(' ').next().unwrap_or("").to_string();
     let word = if word == "rp" { format!("rp {}", line.trim().split(' ').nth(2).unwrap_or("")) } else { word };
     let site = site.replace("/repo/", "");
-    vec![StepViolation { clause: clause.to_string(), detail, shape: Some(format!("{} @ {}", word, site)) }]
+    vec![StepViolation { clause: clause.to_string(), detail, shape: Some(format!("{} @ {}", word, site)), soft: false }]
 }
 
 pub fn poisoned(node: &Node) -> Option<String> {
